@@ -242,6 +242,8 @@ var c12Pods = []cniPod{
 	{Name: "p-aa", Networks: "a,a"},
 	{Name: "p-unknown", Networks: "a,zz"},
 	{Name: "p-args", Networks: "a,b", ExtendedArg: `{"common":{"ipinfos":[{"ip":"10.1.2.3/24","vlan":2,"gateway":"10.1.2.1"}],"x":"y"}}`},
+	// extended args with another key set (what one pod's annotation carries must not show up in another pod's arguments)
+	{Name: "p-args2", Networks: "a,b", ExtendedArg: `{"common":{"z":"1"}}`},
 }
 
 var c12Confs = []daemonConf{{[]string{"a"}, ""}, {[]string{"a", "b"}, ""}, {[]string{"a"}, "c"}, {[]string{"b", "a"}, "c"}}
@@ -426,7 +428,7 @@ func c12PairJob(shard, nshards, maxLen int) Job {
 	return Job{Name: name, Weight: 3, Run: func(deadline time.Time) *ScenResult {
 		t0 := time.Now()
 		r := newCaseResult()
-		small := []string{"p-ab", "p-bc-if", "p-none", "p-args"}
+		small := []string{"p-ab", "p-bc-if", "p-none", "p-args", "p-args2"}
 		n := 0
 		for _, conf := range c12Confs[:2] {
 			h, err := newCNIHarness(conf)
@@ -513,7 +515,7 @@ func init() {
 			"networks a,b,c in the JSON configuration, d only as a file in network-conf-dir; 4 daemon configurations (default networks, ENI network); 13 pod shapes (no annotation, comma and JSON forms, interfaces, ENI request, duplicate network, unknown network, extended args)",
 			"concurrent requests are covered by C19's scenarios, not here"},
 		Rule: "(1) every daemon configuration x pod x failure pattern (every subset of <=4 of {ADD,DEL} x the pod's plugin types failing) on ADD;DEL, and the same with the failures lifted followed by two more DELs; (2) every history of 2..N requests over two containers " +
-			"(ADD/DEL for each) for 16 pod pairs x 3 failure patterns, and ADD;ADD;DEL;DEL for 25 pod pairs on a freshly started daemon each; each request's plugin invocations (command, type, container, interface, parsed CNI_ARGS, stdin incl. prevResult), HTTP outcome and state file are compared with the list-manipulation model; " +
+			"(ADD/DEL for each) for 25 pod pairs x 3 failure patterns, and ADD;ADD;DEL;DEL for 25 pod pairs on a freshly started daemon each; each request's plugin invocations (command, type, container, interface, parsed CNI_ARGS, stdin incl. prevResult), HTTP outcome and state file are compared with the list-manipulation model; " +
 			"(3) requests for different containers as threads of the cooperative scheduler (points: plugin invocations, state files, locks, process-environment accesses; bounded preemptions): under every schedule each container's plugins receive what they receive when the request runs alone; " +
 			"distinct/non-trivial = distinct (configuration, failures, history, invocation sequence)",
 		Jobs: func(tier string) []Job {
